@@ -59,6 +59,17 @@ def run(tier, seed):
         ec.eng_persist(bd, tr, mode="replay", **{"in": wc})
         traces.append({"trace": tr, "cases": wc, "origin": f"EngineObsGen(restarts) {regime}"})
 
+    # directed family: a backward projection is pending (a firewall was recomputed as a plain callee, its
+    # projections not yet re-run) at the moment the store is closed and reopened (tools/gen_pbp_restart.py)
+    pcases = os.path.join(wd, "pbp_restart.cases")
+    vp.run(["python3", os.path.join(vp.ROOT, "tools", "gen_pbp_restart.py"), pcases, str(seed)])
+    for regime in ("hold", "settle"):
+        wc = os.path.join(wd, f"pbp_{regime}.cases")
+        wrap_cases(pcases, wc, regime, seed)
+        tr = os.path.join(wd, f"pbp_{regime}.ndjson")
+        ec.eng_persist(bd, tr, mode="replay", **{"in": wc})
+        traces.append({"trace": tr, "cases": wc, "origin": f"pending backward projection at restart, {regime}"})
+
     # a callee with 1100 callers: after a clean restart its callers set is rebuilt from the store
     # through the spill path of the key-of-set cache; every caller must still follow an input change
     wide = ec.wide_fanin_leg(PID, bd, wd, verdict, "eng_persist", fan=(1100,) if quick else (1024, 1025, 1100, 2100),
